@@ -44,6 +44,7 @@ type stepObs struct {
 	Errors   int            `json:"errors"`
 	Events   [][2]string    `json:"events"`
 	Consumed map[string]int `json:"consumed"`
+	Hung     bool           `json:"hung"`
 }
 
 var stepTerminalOK = map[string]bool{"obj.noaction": true, "result.ok": true}
@@ -161,6 +162,10 @@ func runBatchSteps(c *core.Ctx, drv string, own string) int {
 			}
 			c.Report(core.Violation{Assertion: "step:" + assertion, Fields: map[string]string{"batch_size": fmt.Sprint(len(s.Batch)), "layer": "batch-step"},
 				Detail: map[string]interface{}{"why": why, "step": s, "observed": o}})
+		}
+		if o.Hung {
+			report("C06", "wait-returns", "after the step every object the step returned for another round was released, and still Wait did not return: the step left the queue's wait counter too high (some object of the batch was neither finished, failed nor returned)")
+			continue
 		}
 		next := toSet(o.Next)
 		termOK, termFail := map[string]int{}, map[string]int{}
